@@ -78,6 +78,11 @@ def annotation_targets():
                    ('@NoInject(%s);', None), ('@With(%s);', None), ('@NoWith(%s);', None)):
     for target in ('P', 'Missing'):
       v.append((base + ann % target + '\n', 'Q', target == 'Missing'))
+  # the annotated name exists in ANOTHER program of this catalogue (compiled earlier in the same
+  # process by the harness warm-up): the check must not remember it
+  v.append((E + 'Ranked(x, y) :- T(x, y);\nTop(x) :- Ranked(x, y);\n@OrderBy(Ranked, "col0");\n', 'Top', False))
+  v.append((E + 'Ranker(x, y) :- T(x, y);\nTop(x) :- Ranker(x, y);\n@OrderBy(Ranked, "col0");\n', 'Top', True))
+  v.append((E + 'Ranker(x, y) :- T(x, y);\nTop(x) :- Ranker(x, y);\n@Limit(Ranked, 1);\n', 'Top', True))
   return v
 
 
